@@ -46,3 +46,30 @@ Proofs/DispatcherP.vos Proofs/DispatcherP.vok Proofs/DispatcherP.required_vos: P
 Props/C17.vo Props/C17.glob Props/C17.v.beautified Props/C17.required_vo: Props/C17.v Base/Tactics.vo Base/Prelude.vo Base/Fixed.vo Base/FMap.vo Model/Types.vo Model/Env.vo Model/Dispatcher.vo Proofs/DispatcherP.vo
 Props/C17.vio: Props/C17.v Base/Tactics.vio Base/Prelude.vio Base/Fixed.vio Base/FMap.vio Model/Types.vio Model/Env.vio Model/Dispatcher.vio Proofs/DispatcherP.vio
 Props/C17.vos Props/C17.vok Props/C17.required_vos: Props/C17.v Base/Tactics.vos Base/Prelude.vos Base/Fixed.vos Base/FMap.vos Model/Types.vos Model/Env.vos Model/Dispatcher.vos Proofs/DispatcherP.vos
+Proofs/ExecP.vo Proofs/ExecP.glob Proofs/ExecP.v.beautified Proofs/ExecP.required_vo: Proofs/ExecP.v Base/Tactics.vo Base/Prelude.vo Base/Fixed.vo Base/FMap.vo Model/Types.vo Model/Env.vo Model/Registry.vo Model/Cw20.vo Model/Reward.vo Model/Dispatcher.vo Model/Hub.vo Model/Exec.vo
+Proofs/ExecP.vio: Proofs/ExecP.v Base/Tactics.vio Base/Prelude.vio Base/Fixed.vio Base/FMap.vio Model/Types.vio Model/Env.vio Model/Registry.vio Model/Cw20.vio Model/Reward.vio Model/Dispatcher.vio Model/Hub.vio Model/Exec.vio
+Proofs/ExecP.vos Proofs/ExecP.vok Proofs/ExecP.required_vos: Proofs/ExecP.v Base/Tactics.vos Base/Prelude.vos Base/Fixed.vos Base/FMap.vos Model/Types.vos Model/Env.vos Model/Registry.vos Model/Cw20.vos Model/Reward.vos Model/Dispatcher.vos Model/Hub.vos Model/Exec.vos
+Proofs/HubFrame.vo Proofs/HubFrame.glob Proofs/HubFrame.v.beautified Proofs/HubFrame.required_vo: Proofs/HubFrame.v Base/Tactics.vo Base/Prelude.vo Base/Fixed.vo Base/FMap.vo Model/Types.vo Model/Env.vo Model/Registry.vo Model/Cw20.vo Model/Hub.vo
+Proofs/HubFrame.vio: Proofs/HubFrame.v Base/Tactics.vio Base/Prelude.vio Base/Fixed.vio Base/FMap.vio Model/Types.vio Model/Env.vio Model/Registry.vio Model/Cw20.vio Model/Hub.vio
+Proofs/HubFrame.vos Proofs/HubFrame.vok Proofs/HubFrame.required_vos: Proofs/HubFrame.v Base/Tactics.vos Base/Prelude.vos Base/Fixed.vos Base/FMap.vos Model/Types.vos Model/Env.vos Model/Registry.vos Model/Cw20.vos Model/Hub.vos
+Proofs/HubAdmin.vo Proofs/HubAdmin.glob Proofs/HubAdmin.v.beautified Proofs/HubAdmin.required_vo: Proofs/HubAdmin.v Base/Tactics.vo Base/Prelude.vo Base/Fixed.vo Base/FMap.vo Model/Types.vo Model/Env.vo Model/Registry.vo Model/Cw20.vo Model/Hub.vo Proofs/HubFrame.vo
+Proofs/HubAdmin.vio: Proofs/HubAdmin.v Base/Tactics.vio Base/Prelude.vio Base/Fixed.vio Base/FMap.vio Model/Types.vio Model/Env.vio Model/Registry.vio Model/Cw20.vio Model/Hub.vio Proofs/HubFrame.vio
+Proofs/HubAdmin.vos Proofs/HubAdmin.vok Proofs/HubAdmin.required_vos: Proofs/HubAdmin.v Base/Tactics.vos Base/Prelude.vos Base/Fixed.vos Base/FMap.vos Model/Types.vos Model/Env.vos Model/Registry.vos Model/Cw20.vos Model/Hub.vos Proofs/HubFrame.vos
+Proofs/Auth.vo Proofs/Auth.glob Proofs/Auth.v.beautified Proofs/Auth.required_vo: Proofs/Auth.v Base/Tactics.vo Base/Prelude.vo Base/Fixed.vo Base/FMap.vo Model/Types.vo Model/Env.vo Model/Registry.vo Model/Cw20.vo Model/Reward.vo Model/Dispatcher.vo Model/Hub.vo Model/Exec.vo Proofs/HubFrame.vo Proofs/HubAdmin.vo
+Proofs/Auth.vio: Proofs/Auth.v Base/Tactics.vio Base/Prelude.vio Base/Fixed.vio Base/FMap.vio Model/Types.vio Model/Env.vio Model/Registry.vio Model/Cw20.vio Model/Reward.vio Model/Dispatcher.vio Model/Hub.vio Model/Exec.vio Proofs/HubFrame.vio Proofs/HubAdmin.vio
+Proofs/Auth.vos Proofs/Auth.vok Proofs/Auth.required_vos: Proofs/Auth.v Base/Tactics.vos Base/Prelude.vos Base/Fixed.vos Base/FMap.vos Model/Types.vos Model/Env.vos Model/Registry.vos Model/Cw20.vos Model/Reward.vos Model/Dispatcher.vos Model/Hub.vos Model/Exec.vos Proofs/HubFrame.vos Proofs/HubAdmin.vos
+Proofs/Pause.vo Proofs/Pause.glob Proofs/Pause.v.beautified Proofs/Pause.required_vo: Proofs/Pause.v Base/Tactics.vo Base/Prelude.vo Base/Fixed.vo Base/FMap.vo Model/Types.vo Model/Env.vo Model/Registry.vo Model/Cw20.vo Model/Hub.vo Model/Exec.vo Proofs/HubFrame.vo Proofs/HubAdmin.vo Proofs/Auth.vo
+Proofs/Pause.vio: Proofs/Pause.v Base/Tactics.vio Base/Prelude.vio Base/Fixed.vio Base/FMap.vio Model/Types.vio Model/Env.vio Model/Registry.vio Model/Cw20.vio Model/Hub.vio Model/Exec.vio Proofs/HubFrame.vio Proofs/HubAdmin.vio Proofs/Auth.vio
+Proofs/Pause.vos Proofs/Pause.vok Proofs/Pause.required_vos: Proofs/Pause.v Base/Tactics.vos Base/Prelude.vos Base/Fixed.vos Base/FMap.vos Model/Types.vos Model/Env.vos Model/Registry.vos Model/Cw20.vos Model/Hub.vos Model/Exec.vos Proofs/HubFrame.vos Proofs/HubAdmin.vos Proofs/Auth.vos
+Proofs/Params.vo Proofs/Params.glob Proofs/Params.v.beautified Proofs/Params.required_vo: Proofs/Params.v Base/Tactics.vo Base/Prelude.vo Base/Fixed.vo Base/FMap.vo Model/Types.vo Model/Env.vo Model/Registry.vo Model/Cw20.vo Model/Reward.vo Model/Dispatcher.vo Model/Hub.vo Model/Exec.vo Proofs/ExecP.vo Proofs/HubFrame.vo Proofs/HubAdmin.vo Proofs/DispatcherP.vo
+Proofs/Params.vio: Proofs/Params.v Base/Tactics.vio Base/Prelude.vio Base/Fixed.vio Base/FMap.vio Model/Types.vio Model/Env.vio Model/Registry.vio Model/Cw20.vio Model/Reward.vio Model/Dispatcher.vio Model/Hub.vio Model/Exec.vio Proofs/ExecP.vio Proofs/HubFrame.vio Proofs/HubAdmin.vio Proofs/DispatcherP.vio
+Proofs/Params.vos Proofs/Params.vok Proofs/Params.required_vos: Proofs/Params.v Base/Tactics.vos Base/Prelude.vos Base/Fixed.vos Base/FMap.vos Model/Types.vos Model/Env.vos Model/Registry.vos Model/Cw20.vos Model/Reward.vos Model/Dispatcher.vos Model/Hub.vos Model/Exec.vos Proofs/ExecP.vos Proofs/HubFrame.vos Proofs/HubAdmin.vos Proofs/DispatcherP.vos
+Props/C10.vo Props/C10.glob Props/C10.v.beautified Props/C10.required_vo: Props/C10.v Base/Tactics.vo Base/Prelude.vo Base/Fixed.vo Base/FMap.vo Model/Types.vo Model/Env.vo Model/Registry.vo Model/Cw20.vo Model/Reward.vo Model/Dispatcher.vo Model/Hub.vo Model/Exec.vo Proofs/HubFrame.vo Proofs/HubAdmin.vo Proofs/Auth.vo
+Props/C10.vio: Props/C10.v Base/Tactics.vio Base/Prelude.vio Base/Fixed.vio Base/FMap.vio Model/Types.vio Model/Env.vio Model/Registry.vio Model/Cw20.vio Model/Reward.vio Model/Dispatcher.vio Model/Hub.vio Model/Exec.vio Proofs/HubFrame.vio Proofs/HubAdmin.vio Proofs/Auth.vio
+Props/C10.vos Props/C10.vok Props/C10.required_vos: Props/C10.v Base/Tactics.vos Base/Prelude.vos Base/Fixed.vos Base/FMap.vos Model/Types.vos Model/Env.vos Model/Registry.vos Model/Cw20.vos Model/Reward.vos Model/Dispatcher.vos Model/Hub.vos Model/Exec.vos Proofs/HubFrame.vos Proofs/HubAdmin.vos Proofs/Auth.vos
+Props/C11.vo Props/C11.glob Props/C11.v.beautified Props/C11.required_vo: Props/C11.v Base/Tactics.vo Base/Prelude.vo Base/Fixed.vo Base/FMap.vo Model/Types.vo Model/Env.vo Model/Registry.vo Model/Cw20.vo Model/Hub.vo Model/Exec.vo Proofs/HubFrame.vo Proofs/HubAdmin.vo Proofs/Auth.vo Proofs/Pause.vo
+Props/C11.vio: Props/C11.v Base/Tactics.vio Base/Prelude.vio Base/Fixed.vio Base/FMap.vio Model/Types.vio Model/Env.vio Model/Registry.vio Model/Cw20.vio Model/Hub.vio Model/Exec.vio Proofs/HubFrame.vio Proofs/HubAdmin.vio Proofs/Auth.vio Proofs/Pause.vio
+Props/C11.vos Props/C11.vok Props/C11.required_vos: Props/C11.v Base/Tactics.vos Base/Prelude.vos Base/Fixed.vos Base/FMap.vos Model/Types.vos Model/Env.vos Model/Registry.vos Model/Cw20.vos Model/Hub.vos Model/Exec.vos Proofs/HubFrame.vos Proofs/HubAdmin.vos Proofs/Auth.vos Proofs/Pause.vos
+Props/C20.vo Props/C20.glob Props/C20.v.beautified Props/C20.required_vo: Props/C20.v Base/Tactics.vo Base/Prelude.vo Base/Fixed.vo Base/FMap.vo Model/Types.vo Model/Env.vo Model/Registry.vo Model/Cw20.vo Model/Reward.vo Model/Dispatcher.vo Model/Hub.vo Model/Exec.vo Proofs/ExecP.vo Proofs/HubFrame.vo Proofs/HubAdmin.vo Proofs/DispatcherP.vo Proofs/Auth.vo Proofs/Params.vo
+Props/C20.vio: Props/C20.v Base/Tactics.vio Base/Prelude.vio Base/Fixed.vio Base/FMap.vio Model/Types.vio Model/Env.vio Model/Registry.vio Model/Cw20.vio Model/Reward.vio Model/Dispatcher.vio Model/Hub.vio Model/Exec.vio Proofs/ExecP.vio Proofs/HubFrame.vio Proofs/HubAdmin.vio Proofs/DispatcherP.vio Proofs/Auth.vio Proofs/Params.vio
+Props/C20.vos Props/C20.vok Props/C20.required_vos: Props/C20.v Base/Tactics.vos Base/Prelude.vos Base/Fixed.vos Base/FMap.vos Model/Types.vos Model/Env.vos Model/Registry.vos Model/Cw20.vos Model/Reward.vos Model/Dispatcher.vos Model/Hub.vos Model/Exec.vos Proofs/ExecP.vos Proofs/HubFrame.vos Proofs/HubAdmin.vos Proofs/DispatcherP.vos Proofs/Auth.vos Proofs/Params.vos
